@@ -158,8 +158,8 @@ Ltac calls IH :=
 
 Ltac hB_branch IH :=
   first [ reflexivity
-        | unfold helperB_direct; f_equal; apply fold_left_ext; intros ? ?; apply fold_left_ext; intros ? ?;
-          gnorm; rewrite ?gen_isDominated_eq; unfold weakly_dominated_upto, fbump; first [reflexivity | bool_cases]
+        | unfold helperB_direct; f_equal; apply fold_left_ext; intros ? ?; gnorm; rewrite ?fold_left_map;
+          apply fold_left_ext; intros ? ?; gnorm; rewrite ?gen_isDominated_eq; unfold weakly_dominated_upto, fbump; first [reflexivity | bool_cases]
         | calls IH; reflexivity
         | match goal with |- context[splitB ?b ?w ?o] => destruct (splitB b w o) as [[[? ?] ?] ?] end; calls IH; reflexivity ].
 
